@@ -3,10 +3,10 @@
 (* expectation computed by the specification (requested text, validity, tree). *)
 EXTENDS RawToy, Json, IOUtils, TLC
 
+(* row = <<text, rect, repl, valid, requested text, names of its tree>>         *)
 Row(t, r, p) ==
   LET new == SpliceText(t, r, p)  v == ToyValid(new)
-  IN [text |-> t, rect |-> r, repl |-> p, valid |-> v, new |-> new,
-      names |-> IF v THEN ToyParse(new).p ELSE <<>>]
+  IN <<t, r, p, v, new, IF v THEN ToyParse(new).p ELSE <<>> >>
 Rows == UNION {{Row(t, r, p) : r \in RectsOf(t), p \in ToyRepls} : t \in ValidTexts}
 ASSUME LET T == Rows IN
        /\ PrintT(<<"ROWS", Cardinality(T), Cardinality(ValidTexts), Cardinality(ToyRepls)>>)
